@@ -103,14 +103,17 @@ def boundary_digests(args):
         for p in (path, path + '.tmp'):
             if os.path.exists(p):
                 os.unlink(p)
+    base_pool = cfg.get('pool')
+    pool_s = base_pool[-1] if isinstance(base_pool, (list, tuple)) else None       # sampler pool of the base: kept
     if 'pool' in variant:
-        c['pool'] = variant['pool']
+        vp = variant['pool']
+        c['pool'] = [vp[0] if isinstance(vp, (list, tuple)) else vp, pool_s]
     s = None
     out = dict(variant=variant.get('name'), digests=[], error=None)
     try:
         if variant.get('orders'):
             sp = ScriptedPool(variant['orders'])
-            c['pool'] = None
+            c['pool'] = [None, pool_s]
             s = ckpt.make(c, model, path, resume=False, cls=Sampler)
             from nautilus.pool import NautilusPool
             s.pool_l = NautilusPool(sp)
